@@ -202,7 +202,7 @@ func (ex *Exec) oblige(fr *Frame, st *State, kind, label string, pos token.Pos, 
 	if goal == "true" {
 		return
 	}
-	if ex.opts != nil && ex.opts.GhostOnly && kind != "assert" && kind != "loop-exit" {
+	if ex.opts != nil && ex.opts.GhostOnly && kind != "assert" && kind != "loop-exit" && kind != "loop-step" {
 		return
 	}
 	name := fr.prefix + "#" + kind
@@ -277,6 +277,16 @@ func (ex *Exec) execBlock(fr *Frame, b *ssa.BasicBlock, st *State, pred *ssa.Bas
 			phiVals[i] = ex.val(fr, st, p.Edges[idx])
 		}
 	}
+	// the values the loop-carried variables had when this iteration began (for `loop N step` clauses)
+	var prevPhi map[string]SVal
+	if li := fr.loops[b]; li != nil && st.inLoop[b] && len(fr.loopClausesOf(li, "loop-step")) > 0 {
+		prevPhi = map[string]SVal{}
+		for _, p := range phis {
+			if v, ok := st.vals[p]; ok && p.Comment != "" {
+				prevPhi[p.Comment] = v
+			}
+		}
+	}
 	for i, p := range phis {
 		st.vals[p] = phiVals[i]
 	}
@@ -319,6 +329,75 @@ func (ex *Exec) execBlock(fr *Frame, b *ssa.BasicBlock, st *State, pred *ssa.Bas
 	}
 	if li := fr.loops[b]; li != nil {
 		if st.inLoop[b] {
+			// back edge: per-iteration assertions (`loop N step`: proved here, in terms of the new values of the
+			// loop-carried variables, their values prev_<name> at the start of the iteration, and the locals of the body)
+			if cls := fr.loopClausesOf(li, "loop-step"); len(cls) > 0 {
+				env := ex.loopEnv(fr, li, st)
+				for name, sv := range prevPhi {
+					if sv.Loc == nil && sv.Tup == nil {
+						for _, in := range b.Instrs {
+							if p, ok := in.(*ssa.Phi); ok && p.Comment == name {
+								env["prev_"+name] = CV{T: sv.T, Sort: ex.w.sortOf(p.Type()), Type: p.Type()}
+							}
+						}
+					}
+				}
+				local := map[string]map[ssa.Value]bool{}
+				for blk := range li.body {
+					for _, in := range blk.Instrs {
+						if d, ok := in.(*ssa.DebugRef); ok && !d.IsAddr && d.Object() != nil {
+							if _, isVar := d.Object().(*types.Var); !isVar {
+								continue
+							}
+							if _, has := st.vals[d.X]; has {
+								if local[d.Object().Name()] == nil {
+									local[d.Object().Name()] = map[ssa.Value]bool{}
+								}
+								local[d.Object().Name()][d.X] = true
+							}
+						}
+					}
+				}
+				for name, vs := range local {
+					if _, ok := env[name]; ok || len(vs) != 1 {
+						continue
+					}
+					for v := range vs {
+						if sv := st.vals[v]; sv.Loc == nil && sv.Tup == nil {
+							env[name] = CV{T: sv.T, Sort: ex.w.sortOf(v.Type()), Type: v.Type()}
+						}
+					}
+				}
+				ctx := &EvalCtx{ex: ex, st: st, old: fr.pre, env: env}
+				for i, c := range cls {
+					c.hit = true
+					t, err := ctx.evalBool(c.E)
+					if err != nil {
+						// a clause about a local of the body that this path never defined says nothing on this path
+						if m := strings.TrimPrefix(err.Error(), "unknown identifier "); m != err.Error() {
+							name := strings.Trim(m, "\"")
+							isLocal := false
+							for blk := range li.body {
+								for _, in := range blk.Instrs {
+									if d, ok := in.(*ssa.DebugRef); ok && d.Object() != nil && d.Object().Name() == name {
+										isLocal = true
+									}
+								}
+							}
+							if isLocal {
+								continue
+							}
+						}
+						ex.errorf("%s loop %d step: %v", fnName(fr.fn), li.ord, err)
+						continue
+					}
+					label := c.Label
+					if label == "" {
+						label = fmt.Sprintf("S%d.%d", li.ord, i+1)
+					}
+					ex.oblige(fr, st, "loop-step", label, token.NoPos, t)
+				}
+			}
 			// back edge: invariants must be preserved
 			ex.loopClauses(fr, li, st, "inv-pres", true)
 			return
